@@ -1,7 +1,7 @@
 #!/usr/bin/env python3
 """Runner: AST dump (cached by content hash), unit emission, goto-cc / goto-instrument --dfcc / cbmc, result parsing."""
 import os, sys, json, time, hashlib, subprocess, shutil, re, glob, resource
-import yast, yunit
+import yast, ystubgen, yunit
 from yast import Abort
 
 VERIF = os.path.dirname(os.path.dirname(os.path.abspath(__file__)))
@@ -67,6 +67,7 @@ def emit_unit(ast_path, spec_path, outdir):
     u2 = yunit.Unit(ix, spec); u2._scan_text = txt; txt = u2.build()
     cpath = os.path.join(outdir, (spec.name or os.path.basename(spec_path)) + '.c')
     open(cpath, 'w').write(txt)
+    json.dump(getattr(u2, 'stub_info', {}), open(cpath + '.stubs.json', 'w'))
     return cpath, spec, u2
 
 PROBE = 'Y_VACUITY_PROBE'
@@ -81,7 +82,13 @@ def run_job(cpath, job, outdir, tier='quick'):
     timeout = int(os.environ.get('Y_TIMEOUT') or job.get('timeout', '900'))
     res = {'job': name, 'unit': os.path.basename(cpath), 'entry': entry, 'cmds': [], 'obligations': [], 'seconds': 0.0,
            'backend': job.get('backend', ''), 'props': job.get('props', '').split(',')}
-    cmd = ['goto-cc', '-I', TOOLS, '--function', entry] + defs + [cpath, '-o', gb1]
+    src = cpath
+    if job.get('stub') or os.path.exists(cpath + '.stubs.json'):
+        try:
+            src, sdefs = ystubgen.make_job_source(cpath, job, outdir); defs = defs + sdefs
+        except yast.Abort as a:
+            res['status'] = 'error'; res['detail'] = 'stub generation failed: ' + str(a); return res
+    cmd = ['goto-cc', '-I', TOOLS, '--function', entry] + defs + [src, '-o', gb1]
     rc, out, dt = sh(cmd, 300, log); res['cmds'].append(' '.join(cmd))
     if rc != 0:
         res['status'] = 'error'; res['detail'] = 'goto-cc failed: ' + out[-1500:]; return res
